@@ -361,6 +361,7 @@ def run(ctx):
     prog = ctx.prog
     ctx.run_rule('C04.1a', 'T5', 'every validator is wired to every element kind it applies to', r_wiring, prog)
     ctx.run_rule('C04.1b', 'T5', 'the validator overrides every Visitor method', c20.r_validator_overrides_all, prog)
+    ctx.run_rule('C04.1e', 'T5', 'every type reference that is written - element, key, value, success and failure types included - is presented to the validators (its attributes and its own rules are checked there)', c20.r_typeref, prog)
     ctx.run_rule('C04.1c', 'T5', 'the traversal the validators ride on covers every child list', c20.r_child_coverage, prog)
     ctx.run_rule('C04.2', 'T5', 'redefinition scan covers every container', r_redefinition_coverage, prog)
     ctx.run_rule('C04.3', 'T5', 'every rule has a producer', r_every_rule_has_a_producer, prog)
